@@ -138,6 +138,19 @@ func (tc *TypeChecker) CheckType(value interface{}, expectedType Type) error {
 		return tc.CheckType(value, optType.InnerType)
 	}
 
+	// A value satisfies a union when it satisfies one of its members. Checking
+	// each member with CheckType (rather than comparing runtime types) lets a
+	// member behave inside a union exactly as it does on its own.
+	if unionType, ok := expectedType.(UnionType); ok {
+		for _, memberType := range unionType.Types {
+			if tc.CheckType(value, memberType) == nil {
+				return nil
+			}
+		}
+		return fmt.Errorf("type mismatch: expected %s, got %s",
+			tc.TypeToString(expectedType), tc.TypeToString(GetRuntimeType(value)))
+	}
+
 	// JSON has a single number type, so every number in a request body decodes
 	// to float64. Without this, an `int` field rejects the perfectly ordinary
 	// body {"id": 1} with "expected int, got float". A value with a fractional
